@@ -78,6 +78,9 @@ def ask(ureg, q, num):
         if kind == "toreduced":
             r = ureg.Quantity(num(q[1]), q[2]).to_reduced_units()
             return ["ok", norm_num(r.magnitude), norm_units(r)]
+        if kind == "pattern":
+            r = ureg.parse_pattern(q[1], q[2])
+            return ["ok", [[norm_num(x.magnitude), norm_units(x)] for x in (r or [])]]
         if kind == "default_system":
             return ["ok", ureg.default_system]
         if kind == "settings":
